@@ -474,8 +474,12 @@ class WsgiApplication(HttpBase):
             return self.handle_error(p_ctx, others, p_ctx.out_error,
                                                                  start_response)
 
-        assert p_ctx.out_object is not None
-        g = next(iter(p_ctx.out_object))
+        if p_ctx.out_object is None:
+            # a method declared with several return values returned nothing
+            p_ctx.out_object = ()
+
+        # (such a method may also return an empty sequence)
+        g = next(iter(p_ctx.out_object), None)
         is_generator = len(p_ctx.out_object) == 1 and isgenerator(g)
 
         # if the out_object is a generator function, this hack makes the user
